@@ -40,7 +40,17 @@ import (
 var encCfgAuth = sifapp.MakeTestEncodingConfig()
 
 func init() {
+	// two worlds per run, as in family auth: (0) every role store populated, (1) oracle admin EMPTY and a clp whitelist
+	// listing only a stranger
 	families["authtx"] = func(rng *Rng, n int, out *Out, replay string) {
+		authtxWorld(rng, n*3/5, out, replay, 0)
+		out.Emit("reset", "ok", "reset", false)
+		authtxWorld(rng, n, out, replay, 1)
+	}
+}
+
+func authtxWorld(rng *Rng, n int, out *Out, replay string, variant int) {
+	{
 		sifapp.SetConfig(false)
 		const NACC = 14
 		r := rand.New(rand.NewSource(int64(rng.U64())))
@@ -69,7 +79,7 @@ func init() {
 			}
 			gs[authtypes.ModuleName] = cdc.MustMarshalJSON(&auth)
 			gs[banktypes.ModuleName] = cdc.MustMarshalJSON(&bank)
-			return roleGenesis(app, gs, addrs, rng) // the role stores come from the genesis file, in a mix of spellings
+			return roleGenesis(app, gs, addrs, rng, variant) // the role stores come from the genesis file, in a mix of spellings
 		})
 		app.Commit()
 		height := int64(1)
@@ -277,6 +287,19 @@ func init() {
 			k++
 			one(hc, "spoofwrapped", noRole[k%3], k)
 			k++
+		}
+		if variant == 1 {
+			// with the single-value admin unset: every account tries every privileged message — in particular each role
+			// holder the messages of every OTHER role
+			for _, hc := range cases {
+				if hc.name == "AddAccount" || hc.name == "RemoveAccount" {
+					continue
+				}
+				for a := 0; a < NACC; a++ {
+					one(hc, "direct", a, k)
+					k++
+				}
+			}
 		}
 		// directed: grant / use / remove / use for an account named in upper case (12) and one named in lower case (11)
 		var updatePools handlerCase
